@@ -106,3 +106,81 @@ Proof.
   intros H NP. apply (malformed_is_loud cx WF id fr H). intros l LL D.
   destruct (wellformed_starts_with_package l D) as [c [text [rest [E N]]]]. specialize (NP l LL). rewrite E in NP. exact (NP N).
 Qed.
+
+(* ---- and what it ends with: the same computation on the reversed right-hand sides ---- *)
+Definition last_seq (Nl : list bool) (Ls : list (list nat)) (Xs : list gsym) : list nat := first_seq Nl Ls (rev Xs).
+Definition step_last (Nl : list bool) (Ls : list (list nat)) : list (list nat) :=
+  map (fun nt => nodup Nat.eq_dec (nth_f Ls nt ++ flat_map (fun p => let '(_, n, _, kind) := production p in
+                                   if N.eqb n nt && negb (N.eqb kind 2) then first_seq Nl Ls (rev (rhs_of p)) else []) prod_ids)) all_nts.
+Definition gen_last : list (list nat) := Eval vm_compute in iter (step_last gen_nullable) nnt_all (map (fun _ => []) all_nts).
+Definition closed_prod_last (p : N) : bool :=
+  let '(_, nt, _, kind) := production p in
+  N.eqb kind 2 || subset (first_seq gen_nullable gen_last (rev (rhs_of p))) (nth_f gen_last nt).
+Lemma closed_last_checked : forallb closed_prod_last prod_ids = true.
+Proof. vm_compute. reflexivity. Qed.
+
+Definition ends_ok (X : gsym) (l : list tok) : Prop :=
+  match rev l with [] => null_sym gen_nullable X = true | (c, _) :: _ => In c (first_sym gen_last X) end.
+Definition ends_seq_ok (Xs : list gsym) (l : list tok) : Prop :=
+  match rev l with [] => forallb (null_sym gen_nullable) Xs = true | (c, _) :: _ => In c (first_seq gen_nullable gen_last (rev Xs)) end.
+
+Lemma first_seq_app Nl Fs A B : forallb (null_sym Nl) A = true -> forall c, In c (first_seq Nl Fs B) -> In c (first_seq Nl Fs (A ++ B)).
+Proof.
+  induction A as [|X A IH]; intros H c I; [exact I|]. cbn [forallb] in H. apply andb_prop in H as [H1 H2].
+  cbn [app first_seq]. rewrite H1. apply in_or_app. right. apply IH; assumption.
+Qed.
+Lemma first_seq_left Nl Fs A B c : In c (first_seq Nl Fs A) -> In c (first_seq Nl Fs (A ++ B)).
+Proof.
+  induction A as [|X A IH]; intros I; [destruct I|]. cbn [app first_seq] in *. apply in_app_or in I as [I|I]; apply in_or_app; [left; exact I|right].
+  destruct (null_sym Nl X); [apply IH; exact I|destruct I].
+Qed.
+
+Theorem last_sound : forall X l, der X l -> ends_ok X l.
+Proof.
+  apply (der_mut (fun X l _ => ends_ok X l) (fun Xs l _ => ends_seq_ok Xs l)).
+  - intros c text. cbn. left. apply Nat2N.id.
+  - intros p k nt act kind ts P K L D IH. pose proof closed_last_checked as C. rewrite forallb_forall in C.
+    assert (I : In p prod_ids).
+    { unfold prod_ids. apply in_map_iff. exists (N.to_nat p). split; [apply N2Nat.id|apply in_seq; lia]. }
+    specialize (C p I). unfold closed_prod_last in C. rewrite P in C.
+    destruct (N.eqb_spec kind 2) as [E|_]; [contradiction|]. cbn [orb] in C.
+    unfold ends_ok, ends_seq_ok in *. destruct (rev ts) as [|[c text] ts'] eqn:RT; cbn [null_sym first_sym].
+    + (* nullable: by the FIRST development *)
+      assert (TS : ts = []) by (apply (f_equal (@rev _)) in RT; rewrite rev_involutive in RT; exact RT). subst ts.
+      pose proof (first_sound (SNT nt) [] (der_nt p k nt act kind [] P K L D)) as S. exact S.
+    + unfold subset in C. rewrite forallb_forall in C. apply mem_nat_In. apply C. exact IH.
+  - cbn. reflexivity.
+  - intros X0 Xs t1 t2 D1 IH1 D2 IH2. unfold ends_ok, ends_seq_ok in *. rewrite rev_app_distr. cbn [rev].
+    destruct (rev t2) as [|[c2 text2] r2] eqn:R2; cbn [app].
+    + destruct (rev t1) as [|[c1 text1] r1] eqn:R1.
+      * cbn [forallb]. rewrite IH1, IH2. reflexivity.
+      * apply first_seq_app; [rewrite forallb_forall; intros Y HY; apply in_rev in HY; rewrite forallb_forall in IH2; apply IH2; exact HY|].
+        cbn [first_seq]. apply in_or_app. left. exact IH1.
+    + apply first_seq_left. exact IH2.
+Qed.
+
+Definition last_start : list nat := Eval vm_compute in first_sym gen_last start_sym.
+Lemma last_start_is : first_sym gen_last start_sym = last_start.  Proof. vm_compute. reflexivity. Qed.
+(* for the AIDL grammar: the closing brace of the item *)
+Lemma last_start_names : map (fun c => nth c gen_terminals ""%string) last_start = ["""}"""%string].
+Proof. vm_compute. reflexivity. Qed.
+
+Theorem wellformed_ends_with_brace l : der start_sym l ->
+  exists c text front, l = front ++ [(c, text)] /\ nth c gen_terminals ""%string = """}"""%string.
+Proof.
+  intros D. pose proof (last_sound _ _ D) as S. unfold ends_ok in S. destruct (rev l) as [|[c text] r] eqn:R.
+  - rewrite start_not_nullable in S. discriminate.
+  - exists c, text, (rev r). split; [apply (f_equal (@rev _)) in R; rewrite rev_involutive in R; exact R|].
+    rewrite last_start_is in S. pose proof last_start_names as NM.
+    apply (in_map (fun c => nth c gen_terminals ""%string)) in S. rewrite NM in S. destruct S as [S|[]]. symmetry. exact S.
+Qed.
+
+(* trailing text: a text whose last token is not the closing brace always gets an Error *)
+Theorem trailing_text_is_loud cx (WF : length (cx_lc cx) = S (length (cx_src cx))) id fr : add_content cx id = Added fr ->
+  (forall l, lexes_to_eof (cx_src cx, 0%N) l ->
+     match rev l with [] => True | (c, _) :: _ => nth c gen_terminals ""%string <> """}"""%string end) ->
+  exists d, In d (fr_diags fr) /\ d_kind d = DError.
+Proof.
+  intros H NP. apply (malformed_is_loud cx WF id fr H). intros l LL D.
+  destruct (wellformed_ends_with_brace l D) as [c [text [front [E N]]]]. specialize (NP l LL). rewrite E, rev_app_distr in NP. exact (NP N).
+Qed.
